@@ -187,6 +187,15 @@ def run(ck):
         u, g, e_miss, e_empty = final
         starts = [x for _, x in pe_ok] or [dl.pe.to]
         bad = T.t2_all_exits(lb, starts, [g.bb], exits={dl.header})
+        if bad is not None:
+            # the Remove arm may go to the unregister directly (its slot is empty by construction, or the token was
+            # already dead): accepted when the unregister is otherwise reachable only through the 'removed' edges
+            PA_ = "sources::PostAction"
+            pas = [sw for sw in T.switches_on_discr_of(lb, lambda pl: f.adt_path(pl["t"]) == PA_ and not pl["p"]) if sw in dl.blocks and len(lb.blocks[sw]["term"]["targets"]) >= 3]
+            if len(pas) == 1:
+                rem = T.discr_edges(lb, pas[0], T.variant_discr(f, PA_, "Remove"))
+                if rem and T.reachable_only_via(lb, u.bb, e_miss + e_empty + rem, frm=[dl.pe.to], barrier=[dl.header]) and T.t2_all_exits(lb, starts, [g.bb, u.bb], exits={dl.header}) is None:
+                    bad = None
         ck.verdict(bad is None, "2", "T2-all-exits", lb, "processed=>removed-check", "every path from a successful process_events to the next iteration passes the 'was it removed?' check", "an iteration can finish after a successful process_events without checking whether the source was removed from inside its callback", site=lb.where(g.bb), path=path_descr(lb, bad) if bad else None)
         ck.verdict(T.resolves_to_call(lb, g.args[1], [cs.bb for cs in T.calls(lb, name="forget_sub_id")]) or T.path_has(lb, g.args[1], ".token"), "2", "T6-provenance", lb, "removed-check/this-token", "the check looks up this iteration's token", "the removed-check does not look up this iteration's token", site=lb.where(g.bb))
         # lookup miss (slot reused) => unregister
